@@ -1,4 +1,4 @@
-import GSProofs.Lemmas.LinkTrackFinish
+import GSProofs.Lemmas.LinkTrackDedup
 /-!
 History-level vocabulary for the C19 theorems, defined by scanning the operation list only
 (no model, no specification state), and its connection to the specification state.
@@ -60,12 +60,13 @@ def skipOf (r : Req) (h : List Op) : Int :=
 
 
 def specRun (h : List Op) : Spec := (Spec.runFrom {} h).1
-def WF (h : List Op) : Prop := Spec.WFfrom {} h
+/-- Kept only so that files written before the `DedupKey` repair (/repo a69c5a5) still compile: the
+refinement and every C19 theorem now hold for ALL histories, so the former well-formedness
+hypothesis is vacuous. -/
+def WF (_h : List Op) : Prop := True
+instance (h : List Op) : Decidable (WF h) := isTrue trivial
 
 /-! ### the with-block list of a request, with multiplicities -/
-
-/-- the links of request `r` in a peer-level ledger, all scopes, in recording order -/
-def reqLinks (L : List PEntry) (r : Req) : List Link := (L.filter (fun e => e.2.1 == r)).map (·.2.2)
 
 theorem reqLinks_append (L M : List PEntry) (r : Req) : reqLinks (L ++ M) r = reqLinks L r ++ reqLinks M r := by
   simp [reqLinks, List.filter_append]
@@ -97,12 +98,94 @@ theorem reqLinks_filter (L : List PEntry) (r' r : Req) :
     by_cases he : e.2.1 = r <;> simp [he]
     intro h2; exact h h2.symm
 
+theorem reqLinks_moveReq (L : List PEntry) (r' : Req) (s : Option Key) (r : Req) :
+    reqLinks (Spec.moveReq L r' s) r = reqLinks L r := by
+  unfold Spec.moveReq
+  rw [reqLinks_append, reqLinks_filter]
+  have : reqLinks ((L.filter (fun e => e.2.1 == r')).map (fun e => (s, e.2.1, e.2.2))) r =
+      if r' = r then reqLinks L r else [] := by
+    unfold reqLinks
+    by_cases h : r' = r
+    · subst h
+      simp only [if_true, List.filter_map, List.map_map]
+      rw [List.filter_filter]
+      have : (L.filter (fun a => ((fun e : PEntry => e.2.1 == r') ∘ fun e => (s, e.2.1, e.2.2)) a && a.2.1 == r'))
+          = L.filter (fun e => e.2.1 == r') := by
+        apply List.filter_congr; intro e _; simp [Function.comp_def]
+      rw [this]
+      apply List.map_congr_left; intro e _; rfl
+    · simp only [h, if_false, List.map_eq_nil_iff, List.filter_eq_nil_iff, List.mem_map, List.mem_filter]
+      rintro x ⟨e, ⟨_, he⟩, rfl⟩
+      have : e.2.1 = r' := by simpa using he
+      simp [this, h]
+  rw [this]
+  by_cases h : r' = r <;> simp [h]
+
+theorem exists_mem_moveReq (L : List PEntry) (r' : Req) (s : Option Key) (r : Req) (l : Link) :
+    (∃ s1, (s1, r, l) ∈ Spec.moveReq L r' s) ↔ ∃ s1, (s1, r, l) ∈ L := by
+  constructor
+  · rintro ⟨s1, h1⟩
+    rcases mem_moveReq.1 h1 with ⟨h2, _⟩ | ⟨_, h3, s0, h4⟩
+    · exact ⟨s1, h2⟩
+    · simp only at h3 h4; subst h3; exact ⟨s0, h4⟩
+  · rintro ⟨s1, h1⟩
+    by_cases hr : r = r'
+    · subst hr; exact ⟨s, mem_moveReq.2 (Or.inr ⟨rfl, rfl, s1, h1⟩)⟩
+    · exact ⟨s1, mem_moveReq.2 (Or.inl ⟨h1, hr⟩)⟩
+
+theorem any_req_moveReq (L : List PEntry) (r' : Req) (s : Option Key) (r : Req) :
+    (Spec.moveReq L r' s).any (fun e => e.2.1 == r) = L.any (fun e => e.2.1 == r) := by
+  rw [Bool.eq_iff_iff]
+  simp only [List.any_eq_true, beq_iff_eq]
+  constructor
+  · rintro ⟨e, he, rfl⟩
+    obtain ⟨s1, h1⟩ := (exists_mem_moveReq L r' s e.2.1 e.2.2).1 ⟨e.1, he⟩
+    exact ⟨_, h1, rfl⟩
+  · rintro ⟨e, he, rfl⟩
+    obtain ⟨s1, h1⟩ := (exists_mem_moveReq L r' s e.2.1 e.2.2).2 ⟨e.1, he⟩
+    exact ⟨_, h1, rfl⟩
+
+/-! field projections of the `dedup` step of the specification -/
+section dedupStep
+variable (σ : Spec) (r : Req) (k : Key)
+theorem dedup_scope (x : Req) : (σ.step (.dedup r k)).1.scope x = upd σ.scope r (some k) x := by
+  simp only [Spec.step]
+  split
+  · rename_i h; by_cases hx : x = r
+    · subst hx; simp [h]
+    · simp [upd, hx]
+  · rfl
+theorem dedup_live : (σ.step (.dedup r k)).1.live = upd σ.live r true := by
+  simp only [Spec.step]; split <;> rfl
+theorem dedup_cnt : (σ.step (.dedup r k)).1.cnt = σ.cnt := by simp only [Spec.step]; split <;> rfl
+theorem dedup_skp : (σ.step (.dedup r k)).1.skp = σ.skp := by simp only [Spec.step]; split <;> rfl
+theorem dedup_wb_mem (x : Req) (l : Link) :
+    (∃ s1, (s1, x, l) ∈ (σ.step (.dedup r k)).1.wb) ↔ ∃ s1, (s1, x, l) ∈ σ.wb := by
+  simp only [Spec.step]; split
+  · rfl
+  · exact exists_mem_moveReq σ.wb r (some k) x l
+theorem dedup_ms_mem (x : Req) (l : Link) :
+    (∃ s1, (s1, x, l) ∈ (σ.step (.dedup r k)).1.ms) ↔ ∃ s1, (s1, x, l) ∈ σ.ms := by
+  simp only [Spec.step]; split
+  · rfl
+  · exact exists_mem_moveReq σ.ms r (some k) x l
+theorem dedup_sawMissing (x : Req) : (σ.step (.dedup r k)).1.sawMissing x = σ.sawMissing x := by
+  simp only [Spec.step, Spec.sawMissing]; split
+  · rfl
+  · exact any_req_moveReq σ.ms r (some k) x
+theorem dedup_reqLinks (x : Req) : reqLinks (σ.step (.dedup r k)).1.wb x = reqLinks σ.wb x := by
+  simp only [Spec.step]; split
+  · rfl
+  · exact reqLinks_moveReq σ.wb r (some k) x
+end dedupStep
+
 theorem reqLinks_step (σ : Spec) (r : Req) (acc : List Op) (h : reqLinks σ.wb r = acc.flatMap wbLinks)
     (o : Op) : reqLinks (σ.step o).1.wb r = (sinceStep r acc o).flatMap wbLinks := by
   unfold sinceStep
   cases o with
   | dedup r' k =>
-    by_cases hr : r' = r <;> simp [Op.req, Op.isEnd, hr, Spec.step, h, wbLinks, List.flatMap_append]
+    rw [dedup_reqLinks]
+    by_cases hr : r' = r <;> simp [Op.req, Op.isEnd, hr, h, wbLinks, List.flatMap_append]
   | skip r' n =>
     by_cases hr : r' = r <;> simp [Op.req, Op.isEnd, hr, Spec.step, h, wbLinks, List.flatMap_append]
   | ignore r' ls =>
@@ -131,28 +214,6 @@ theorem reqLinks_runFrom (σ : Spec) (r : Req) (acc : List Op) (h : reqLinks σ.
 /-- the entries of `r` in the specification's with-block ledger are exactly `withBlock r h` -/
 theorem reqLinks_specRun (h : List Op) (r : Req) : reqLinks (specRun h).wb r = withBlock r h :=
   reqLinks_runFrom {} r [] rfl h
-
-/-- when every entry of `r` carries `r`'s current scope, the scope-`s` part of the ledger holds all
-    of `r`'s links or none of them -/
-theorem linksOf_proj (L : List PEntry) (sc : Req → Option Key) (hj : ∀ e ∈ L, e.1 = sc e.2.1)
-    (s : Option Key) (r : Req) :
-    linksOf (proj L s) r = if sc r = s then reqLinks L r else [] := by
-  unfold linksOf proj reqLinks
-  induction L with
-  | nil => simp
-  | cons e t ih =>
-    have ih' := ih (fun e he => hj e (List.mem_cons_of_mem _ he))
-    have he := hj e (List.mem_cons_self)
-    obtain ⟨a, b, c⟩ := e
-    simp only at he
-    by_cases h1 : b = r
-    · subst h1
-      by_cases h2 : sc b = s
-      · simp [List.filter_cons, he, h2] at ih' ⊢; exact ih'
-      · simp [List.filter_cons, he, h2] at ih' ⊢; exact ih'
-    · by_cases h2 : a = s
-      · simp [List.filter_cons, h1, h2] at ih' ⊢; exact ih'
-      · simp [List.filter_cons, h1, h2] at ih' ⊢; exact ih'
 
 /-! ### counting ledger entries request by request -/
 
@@ -253,12 +314,6 @@ theorem runFrom_append (p : PeerTracker) (a b : List Op) :
   | nil => simp [runFrom]
   | cons o os ih => simp [runFrom, ih]
 
-theorem Spec.WFfrom_append (σ : Spec) (a b : List Op) :
-    σ.WFfrom (a ++ b) ↔ σ.WFfrom a ∧ (σ.runFrom a).1.WFfrom b := by
-  induction a generalizing σ with
-  | nil => simp [Spec.WFfrom, Spec.runFrom]
-  | cons o os ih => simp [Spec.WFfrom, Spec.runFrom, ih, and_assoc]
-
 theorem specRun_snoc (h : List Op) (o : Op) : specRun (h ++ [o]) = ((specRun h).step o).1 := by
   simp [specRun, Spec.runFrom_append, Spec.runFrom]
 
@@ -266,16 +321,13 @@ theorem run_snoc (h : List Op) (o : Op) :
     run (h ++ [o]) = ((step (run h).1 o).1, (run h).2 ++ [(step (run h).1 o).2]) := by
   simp [run, runFrom_append, runFrom]
 
-theorem WF_snoc (h : List Op) (o : Op) : WF (h ++ [o]) ↔ WF h ∧ (specRun h).ok o := by
-  simp [WF, specRun, Spec.WFfrom_append, Spec.WFfrom]
-
 theorem since_snoc (r : Req) (h : List Op) (o : Op) : since r (h ++ [o]) = sinceStep r (since r h) o := by
   simp [since, List.foldl_append]
 
-/-- the model refines the specification on well-formed histories -/
-theorem run_refines (h : List Op) (hwf : WF h) :
+/-- the model refines the specification on every history -/
+theorem run_refines (h : List Op) :
     R (run h).1 (specRun h) ∧ (run h).2 = (Spec.runFrom {} h).2 :=
-  runFrom_refines R_init h hwf
+  runFrom_refines R_init h
 
 /-! ### the specification state, characterised by scanning the history -/
 
@@ -303,12 +355,12 @@ theorem char_step {σ : Spec} {r : Req} {acc : List Op} (h : Char σ r acc) (o :
       simp only [Op.req] at hr; subst hr
       simp only [Op.req, Op.isEnd, if_true, Bool.false_eq_true, if_false]
       constructor
-      · simp [Spec.step, List.foldl_append]
-      · simp [Spec.step]
-      · simpa [Spec.step, Spec.sawMissing, isMissTrav] using h.miss
-      · simpa [Spec.step, List.countP_append, isTrav] using h.cnt
-      · simpa [Spec.step, List.foldl_append] using h.skp
-      · intro l; simpa [Spec.step, List.flatMap_append, wbLinks] using h.wb l
+      · rw [dedup_scope]; simp [List.foldl_append]
+      · rw [dedup_live]; simp
+      · rw [dedup_sawMissing]; simpa [isMissTrav] using h.miss
+      · rw [dedup_cnt]; simpa [List.countP_append, isTrav] using h.cnt
+      · rw [dedup_skp]; simpa [List.foldl_append] using h.skp
+      · intro l; rw [dedup_wb_mem]; simpa [List.flatMap_append, wbLinks] using h.wb l
       · intro l; simp
       · simp
     | ignore r' ls =>
@@ -392,8 +444,13 @@ theorem char_step {σ : Spec} {r : Req} {acc : List Op} (h : Char σ r acc) (o :
     cases o with
     | dedup r' k =>
       simp only [Op.req] at hne
-      exact ⟨by simpa [Spec.step, upd, hne] using h.scope, by simpa [Spec.step, upd, hne] using h.live,
-        h.miss, h.cnt, h.skp, h.wb, h.ms, by simpa [Spec.step, upd, hne] using h.idle⟩
+      refine ⟨by rw [dedup_scope]; simpa [upd, hne] using h.scope, by rw [dedup_live]; simpa [upd, hne] using h.live,
+        by rw [dedup_sawMissing]; exact h.miss, by rw [dedup_cnt]; exact h.cnt, by rw [dedup_skp]; exact h.skp,
+        fun l => by rw [dedup_wb_mem]; exact h.wb l, fun l => by rw [dedup_ms_mem]; exact h.ms l, ?_⟩
+      intro ha
+      have := h.idle ha
+      rw [dedup_scope, dedup_cnt, dedup_skp]
+      simpa [upd, hne] using this
     | ignore r' ls =>
       simp only [Op.req] at hne
       refine ⟨h.scope, by simpa [Spec.step, upd, hne] using h.live, h.miss, h.cnt, h.skp, ?_, h.ms, h.idle⟩
@@ -512,10 +569,10 @@ theorem char_specRun (h : List Op) (r : Req) : Char (specRun h) r (since r h) :=
 
 /-! ### persistence of a request's records while it has not ended -/
 
-theorem persist_step (g : List Op) (o : Op) (r' : Req) (l : Link) (hwf : WF (g ++ [o]))
+theorem persist_step (g : List Op) (o : Op) (r' : Req) (l : Link)
     (hl : l ∈ withBlock r' g) (hne : ¬ (o.req = r' ∧ o.isEnd = true)) :
-    l ∈ withBlock r' (g ++ [o]) ∧ scopeOf r' (g ++ [o]) = scopeOf r' g := by
-  unfold withBlock scopeOf at *
+    l ∈ withBlock r' (g ++ [o]) := by
+  unfold withBlock at *
   rw [since_snoc]
   unfold sinceStep
   by_cases hr : o.req = r'
@@ -523,112 +580,20 @@ theorem persist_step (g : List Op) (o : Op) (r' : Req) (l : Link) (hwf : WF (g +
       cases he : o.isEnd
       · rfl
       · exact absurd ⟨hr, he⟩ hne
-    simp only [hr, if_true, hend, Bool.false_eq_true, if_false, List.flatMap_append, List.mem_append,
-      List.foldl_append]
-    refine ⟨Or.inl hl, ?_⟩
-    cases o with
-    | dedup r k =>
-      exfalso
-      simp only [Op.req] at hr; subst hr
-      have hok := ((WF_snoc g _).1 hwf).2
-      simp only [Spec.ok, Spec.clean] at hok
-      obtain ⟨s, hs⟩ := ((char_specRun g r).wb l).2 hl
-      exact hok.2.1 _ hs rfl
-    | _ => rfl
+    simp only [hr, if_true, hend, Bool.false_eq_true, if_false, List.flatMap_append, List.mem_append]
+    exact Or.inl hl
   · simp only [hr, if_false]
-    exact ⟨hl, trivial⟩
+    exact hl
 
-theorem persist (g g' : List Op) (r' : Req) (l : Link) (hwf : WF (g ++ g'))
+theorem persist (g g' : List Op) (r' : Req) (l : Link)
     (hl : l ∈ withBlock r' g) (hne : ∀ o ∈ g', ¬ (o.req = r' ∧ o.isEnd = true)) :
-    l ∈ withBlock r' (g ++ g') ∧ scopeOf r' (g ++ g') = scopeOf r' g := by
+    l ∈ withBlock r' (g ++ g') := by
   induction g' generalizing g with
   | nil => simpa using hl
   | cons o os ih =>
     have hsplit : g ++ o :: os = (g ++ [o]) ++ os := by simp
-    rw [hsplit] at hwf ⊢
-    have hwf1 : WF (g ++ [o]) := ((Spec.WFfrom_append _ _ _).1 hwf).1
-    have h1 := persist_step g o r' l hwf1 hl (hne o List.mem_cons_self)
-    have h2 := ih (g ++ [o]) hwf h1.1 (fun o' ho' => hne o' (List.mem_cons_of_mem _ ho'))
-    exact ⟨h2.1, h2.2.trans h1.2⟩
-
-/-! ### `getLinkTracker` never meets a missing alt tracker (all histories) -/
-
-def AltPresent (p : PeerTracker) : Prop :=
-  ∀ r k, aget p.dedupKeys r = some k → (aget p.alts k).isSome = true
-
-theorem altPresent_init : AltPresent init := by
-  intro r k h; simp [init] at h
-
-theorem altPresent_set {p : PeerTracker} (h : AltPresent p) (s : Option Key) (T : LinkTracker) :
-    AltPresent (p.setScopeTracker s T) := by
-  intro r k hk
-  rw [alts_set_isSome]
-  simp only [set_dedupKeys] at hk
-  simp [h r k hk]
-
-theorem altPresent_step {p : PeerTracker} (h : AltPresent p) (o : Op) : AltPresent (step p o).1 := by
-  have hfin : ∀ r, AltPresent (p.finishTracking r).1 := by
-    intro r
-    cases h0 : aget p.dedupKeys r with
-    | none =>
-      rw [finishTracking_none h0]
-      intro r' k' hk; exact h r' k' hk
-    | some k =>
-      rw [finishTracking_some h0]
-      intro r' k' hk
-      simp only at hk ⊢
-      rw [aget_aerase] at hk
-      by_cases hr : r = r'
-      · simp [hr] at hk
-      · simp only [hr, if_false] at hk
-        have hmem : (r', k') ∈ aerase p.dedupKeys r := mem_of_aget (by rw [aget_aerase]; simp [hr, hk])
-        by_cases hkk : k = k'
-        · subst hkk
-          have hany : (aerase p.dedupKeys r).any (fun e => e.2 == k) = true :=
-            List.any_eq_true.2 ⟨(r', k), hmem, by simp⟩
-          simp [hany, aget_aset]
-        · have := h r' k' hk
-          split
-          · rw [aget_aset]; simp [hkk, this]
-          · rw [aget_aerase, aget_aset]; simp [hkk, this]
-  cases o with
-  | dedup r k =>
-    intro r' k' hk
-    simp only [step, PeerTracker.dedupKey, aget_aset] at hk ⊢
-    by_cases hr : r = r'
-    · simp only [hr, if_true, Option.some.injEq] at hk; subst hk
-      cases hp : aget p.alts k <;> simp [hp, aget_aset]
-    · simp only [hr, if_false] at hk
-      have := h r' k' hk
-      cases hp : aget p.alts k
-      · simp only [hp, Option.isSome_none, Bool.false_eq_true, if_false, aget_aset]
-        by_cases hkk : k = k' <;> simp [hkk, this]
-      · simp [hp, this]
-  | ignore r ls => exact altPresent_set h _ _
-  | skip r n => intro r' k' hk; exact h r' k' hk
-  | trav r l b =>
-    simp only [step]
-    rw [traverse_fst]
-    intro r' k' hk
-    exact altPresent_set h _ _ r' k' hk
-  | finish r => exact hfin r
-  | finishErr r => exact hfin r
-  | clear r => exact hfin r
-
-theorem altPresent_runFrom {p : PeerTracker} (h : AltPresent p) (ops : List Op) : AltPresent (runFrom p ops).1 := by
-  induction ops generalizing p with
-  | nil => exact h
-  | cons o os ih => simp only [runFrom]; exact ih (altPresent_step h o)
-
-/-! ### decidability of well-formedness (for concrete examples) -/
-
-instance (σ : Spec) (r : Req) : Decidable (σ.clean r) := by unfold Spec.clean; infer_instance
-instance (σ : Spec) (o : Op) : Decidable (σ.ok o) := by cases o <;> unfold Spec.ok <;> infer_instance
-instance decWFfrom : (σ : Spec) → (ops : List Op) → Decidable (σ.WFfrom ops)
-  | _, [] => isTrue trivial
-  | σ, o :: os => by
-    unfold Spec.WFfrom
-    exact @instDecidableAnd _ _ inferInstance (decWFfrom _ os)
-instance (h : List Op) : Decidable (WF h) := decWFfrom {} h
+    rw [hsplit]
+    have h1 := persist_step g o r' l hl (hne o List.mem_cons_self)
+    exact ih (g ++ [o]) h1 (fun o' ho' => hne o' (List.mem_cons_of_mem _ ho'))
 
 end GS.LinkTrack
